@@ -308,6 +308,7 @@ def glob_run(sub_a, sub_b, patterns, api_kw):
     share a base name: /dir/a/<n> and /dir/b/<n>.  Whatever the types, nothing outside the destination
     may be touched."""
     w, dest = prep()
+    os.makedirs(os.path.join(os.path.dirname(dest), 'sub'), exist_ok=True)     # for the spelling sub/../<dest>
     before = outside_state(w)
     loop = P.fresh(0)
     viol = []
@@ -339,10 +340,19 @@ def glob_run(sub_a, sub_b, patterns, api_kw):
                 srv.answer(0)
         sftp = start.result()
         mon = fsmon.start(dest)
+        old_cwd = os.getcwd()
         try:
             api_kw = dict(api_kw)
             fn = sftp.get if api_kw.pop('_get', False) else sftp.mget
-            t = loop.create_task(fn(patterns, dest.encode(), recurse=True, **api_kw))
+            form = api_kw.pop('_dest_form', None)
+            dest_arg = dest.encode()
+            if form:
+                # the destination named in another spelling of the same directory
+                os.chdir(os.path.dirname(dest))
+                base_ = os.path.basename(dest)
+                dest_arg = {'dot': './' + base_, 'dotdot': 'sub/../' + base_, 'slashes': os.path.dirname(dest) + '//' + base_,
+                            'trailing': dest + '/'}[form].encode()
+            t = loop.create_task(fn(patterns, dest_arg, recurse=True, **api_kw))
             steps = 0
             while True:
                 loop.quiesce()
@@ -360,6 +370,7 @@ def glob_run(sub_a, sub_b, patterns, api_kw):
                 t.exception()
         finally:
             fsmon.stop()
+            os.chdir(old_cwd)
         for op, p, phys, ro in mon.violations:
             if not ro:
                 viol.append(('write-outside-destination', '%s(%r) resolves to %s' % (op, p, phys)))
@@ -381,7 +392,10 @@ def glob_worker(job):
         for sub_a, sub_b, patterns, kwname in job:
             kw = {'plain': {}, 'preserve': dict(preserve=True), 'errhandler': dict(error_handler=lambda exc: None),
                   'follow': dict(follow_symlinks=True), 'get-list': dict(_get=True),
-                  'get-list-preserve': dict(_get=True, preserve=True)}[kwname]
+                  'get-list-preserve': dict(_get=True, preserve=True),
+                  'get-list-dot': dict(_get=True, _dest_form='dot'), 'get-list-dotdot': dict(_get=True, _dest_form='dotdot'),
+                  'get-list-slashes': dict(_get=True, _dest_form='slashes'), 'get-list-trailing': dict(_get=True, _dest_form='trailing'),
+                  'mget-dot': dict(_dest_form='dot')}[kwname]
             viol = glob_run(sub_a, sub_b, patterns, kw)
             acc.add(core.digest(('glob', sub_a, sub_b, tuple(patterns), kwname)), transitions=4,
                     sample={'remote': {'/dir/a': [sub_a[0].decode('latin1'), sub_a[1]], '/dir/b': [sub_b[0].decode('latin1'), sub_b[1]]},
@@ -415,7 +429,8 @@ def glob_jobs():
                     cases.append(((b'n', ka), (b'n', kb), patterns, kwname))
             for patterns in ([b'/dir/a/n', b'/dir/b/'], [b'/dir/a/n', b'/dir/b/.'], [b'/dir/a/*', b'/dir/b/'], [b'/dir/b/', b'/dir/a/n'],
                              [b'/dir/a/', b'/dir/b/'], [b'/dir/a/.', b'/dir/b/.']):
-                for kwname in ('plain', 'preserve', 'get-list', 'get-list-preserve'):
+                for kwname in ('plain', 'preserve', 'get-list', 'get-list-preserve', 'get-list-dot', 'get-list-dotdot', 'get-list-slashes',
+                               'get-list-trailing', 'mget-dot'):
                     cases.append(((b'n', ka), (b'n', kb), patterns, kwname))
     return [cases[i::32] for i in range(32)]
 
